@@ -129,6 +129,16 @@ fn edits(s: &str, out: &mut Vec<String>) {
         if i + 1 < b.len() { let mut v = b.to_vec(); v.swap(i, i + 1); out.push(mk(v)); }              // transposition
     }
     for i in 0..=b.len() { for &c in ALPHA { let mut v = b.to_vec(); v.insert(i, c); out.push(mk(v)); } } // insertion
+    // characters OUTSIDE the alphabet, inserted and substituted at every position: the four excluded look-alikes, ASCII
+    // punctuation and whitespace (a decoder that trims or skips such characters accepts a corrupted string), multi-byte
+    // whitespace and a full-width digit
+    let outside: [&str; 14] = ["0", "O", "I", "l", " ", "\t", "\n", "\r", "+", "/", "=", "\u{a0}", "\u{3000}", "\u{ff11}"];
+    for i in 0..=s.len() {
+        for o in outside.iter() {
+            let mut t = String::with_capacity(s.len() + 4); t.push_str(&s[..i]); t.push_str(o); t.push_str(&s[i..]); out.push(t);
+            if i < s.len() { let mut t = String::with_capacity(s.len() + 4); t.push_str(&s[..i]); t.push_str(o); t.push_str(&s[i + 1..]); out.push(t); }
+        }
+    }
 }
 
 /// plain Base58 (no checksum) — the harness' own encoder, for strings whose checksum is deliberately wrong
